@@ -127,6 +127,8 @@ func TestProp(t *testing.T) {
 	var lastRaw json.RawMessage
 	var lastMsg string
 	failed := false
+	triage := os.Getenv("VERIF_TRIAGE") == "1" // development aid: record failures without shrinking and continue
+	ntriage := 0
 	defer func() {
 		if failed {
 			dir := os.Getenv("VERIF_REPLAY_DIR")
@@ -155,6 +157,15 @@ func TestProp(t *testing.T) {
 			stats.Record(raw, res)
 		}
 		if res.Status == iso.Fail {
+			if triage {
+				ntriage++
+				if ntriage <= 60 {
+					dir := os.Getenv("VERIF_REPLAY_DIR")
+					path, _ := iso.WriteReplay(dir, id, raw, res.Msg, os.Getenv("VERIF_SEED"))
+					stats.AddViolation(iso.Violation{Replay: path, Msg: firstLines(res.Msg, 3)})
+				}
+				return
+			}
 			failed = true
 			lastRaw, lastMsg = raw, res.Msg
 			rt.Fatalf("%s", res.Msg)
